@@ -63,7 +63,12 @@ structure Cfg where
   hasError : Bool := true
   hasCompleted : Bool := true
   resf : ResK := .some                         -- using: resource_factory returns a resource / None / raises
+                                               -- (`if resource is not None`: a resource that happens to be falsy —
+                                               -- `__len__() == 0`, `__bool__() == False`, an empty CompositeDisposable
+                                               -- filled later — is still `.some`; the harness's `res_kind` is ignored here)
   obsfRaises : Bool := false                   -- using: observable_factory raises
+  srcDisposeRaises : Bool := false             -- fault: `dispose()` of the source's subscription raises `srcdErr`
+  srcdErr : Err := "srcd"
   doFinallyAsIs : Bool := false                -- do_finally as it was before the `fix:` (see `finGuardAsIs`)
 
 /-- `D`: the AutoDetachObserver around the user's callbacks, its SingleAssignmentDisposable, and the
@@ -129,15 +134,20 @@ def logE {α} (e : Eff α) : P α := fun s => ({ s with log := s.log ++ [e] }, n
 
 /-! ## upstream AutoDetachObserver `U` and the source subscription -/
 
-/-- `U.dispose()`: `is_stopped = True; self._subscription.dispose()` (SingleAssignmentDisposable). -/
-def uDispose {α} : P α := fun s =>
+/-- `dispose()` of the subscription object returned by the source's subscribe body (may raise: fault) -/
+def srcDisposeP {α} (c : Cfg) : P α := fun s =>
+  ({ s with log := s.log ++ [.srcDispose] }, if c.srcDisposeRaises then some c.srcdErr else none)
+
+/-- `U.dispose()`: `is_stopped = True; self._subscription.dispose()` (SingleAssignmentDisposable:
+flags first, then `old.dispose()` outside the lock — its exception propagates). -/
+def uDispose {α} (c : Cfg) : P α := fun s =>
   if s.u.sad then ({ s with u.stopped := true }, none)
-  else if s.u.cur then logE .srcDispose { s with u.stopped := true, u.sad := true, u.cur := false }
+  else if s.u.cur then srcDisposeP c { s with u.stopped := true, u.sad := true, u.cur := false }
   else ({ s with u.stopped := true, u.sad := true, u.cur := false }, none)
 
 /-- `Disposable(auto_detach_observer.dispose)` returned by `source.subscribe`: action runs once. -/
-def uSubDispose {α} : P α := fun s =>
-  if s.u.subDisposed then (s, none) else uDispose { s with u.subDisposed := true }
+def uSubDispose {α} (c : Cfg) : P α := fun s =>
+  if s.u.subDisposed then (s, none) else uDispose c { s with u.subDisposed := true }
 
 /-- one invocation of a callback of the operator -/
 def action {α} (c : Cfg) (k : ActK) (arg : Option (Notif α)) : P α := fun s =>
@@ -168,15 +178,15 @@ def resDisposeP {α} (c : Cfg) : P α := fun s =>
 def rDispose {α} (c : Cfg) : P α := fun s =>
   match c.oper with
   | .using =>           -- CompositeDisposable(source.subscribe(...), disp)
-    if s.o.rDisposed then (s, none) else seq uSubDispose (resDisposeP c) { s with o.rDisposed := true }
+    if s.o.rDisposed then (s, none) else seq (uSubDispose c) (resDisposeP c) { s with o.rDisposed := true }
   | .finallyAction =>   -- Disposable(dispose): try: subscription.dispose() finally: action()
     if s.o.rDisposed then (s, none)
-    else tryFinally uSubDispose (action c .fin none) { s with o.rDisposed := true }
+    else tryFinally (uSubDispose c) (action c .fin none) { s with o.rDisposed := true }
   | .doFinally =>       -- CompositeDisposable: [OnDispose(was_invoked), subscription]
-    if s.o.rDisposed then (s, none) else seq (finGuard c) uSubDispose { s with o.rDisposed := true }
+    if s.o.rDisposed then (s, none) else seq (finGuard c) (uSubDispose c) { s with o.rDisposed := true }
   | .doOnDispose =>     -- CompositeDisposable: [OnDispose(), subscription]
-    if s.o.rDisposed then (s, none) else seq (action c .dispose none) uSubDispose { s with o.rDisposed := true }
-  | _ => uSubDispose s  -- the source subscription itself is returned
+    if s.o.rDisposed then (s, none) else seq (action c .dispose none) (uSubDispose c) { s with o.rDisposed := true }
+  | _ => (uSubDispose c) s  -- the source subscription itself is returned
 
 /-! ## downstream AutoDetachObserver `D` -/
 
@@ -251,7 +261,7 @@ def uNotify {α} (c : Cfg) (n : Notif α) : P α := fun s =>
   if s.u.stopped then (s, none)
   else match n with
     | .next v => hNext c v s
-    | t => tryFinally (hTerminal c t) uDispose { s with u.stopped := true }
+    | t => tryFinally (hTerminal c t) (uDispose c) { s with u.stopped := true }
 
 /-- the emitter gets an exception back: it is recorded and the emitter goes on -/
 def swallow {α} (p : P α) (s : St α) : St α :=
@@ -292,7 +302,7 @@ def srcSubscribe {α} (c : Cfg) (sp : SyncPhase α) : P α := fun s =>
     match sp.exn with
     | some e => bodyRaised e s
     | none =>                        -- `auto_detach_observer.subscription = fix_subscriber(subscriber)`
-      if s.u.sad then logE .srcDispose { s with u.live := true }
+      if s.u.sad then srcDisposeP c { s with u.live := true }   -- `if should_dispose and value is not None: value.dispose()`
       else ({ s with u.cur := true, u.live := true }, none)
 
 /-- the operator's `subscribe(observer, scheduler)`; `none` = it returned its disposable `R`. -/
@@ -453,11 +463,12 @@ def view {α} (l : List (Eff α)) : List (Eff α) := l.filter Eff.common
 
 /-- hypotheses of the transparency theorem: no callback of the operator raises; for `do_after_next`
 (whose `try` also covers `observer.on_next`) the subscriber's callbacks do not raise either; for `using` the
-factories succeed. -/
+factories succeed; the inner subscription's `dispose()` does not raise. -/
 structure Quiet (c : Cfg) : Prop where
   nr : ∀ k, c.actRaises k = false
   an : c.oper = .doAfterNext → ∀ k, c.subRaises k = false
   us : c.oper = .using → c.resf ≠ .raise ∧ c.obsfRaises = false
+  sd : c.srcDisposeRaises = false
 
 
 end WinFin
